@@ -4,6 +4,7 @@ import (
 	"fmt"
 	"hash/fnv"
 	"strings"
+	"unicode/utf8"
 
 	cedar "github.com/cedar-policy/cedar-go"
 	"github.com/cedar-policy/cedar-go/x/exp/ast"
@@ -106,6 +107,36 @@ func opParse(c Obj) J {
 	} else {
 		out["single"] = Obj{"ok": true, "policies": policiesToJ([]*cedar.Policy{&single})}
 	}
+	// the same tokens behind n bytes of leading white space / comment: the token sequence, and so the tree, is the
+	// same.  n is chosen so that a multi-byte character of the text is cut at a multiple of 1024 bytes (the read
+	// buffer of the tokenizer), at every one of its inner byte boundaries; the first three such characters
+	padded := []any{}
+	chars := 0
+	for o := 0; o < len(text) && chars < 3; {
+		r, size := utf8.DecodeRuneInString(text[o:])
+		if r == utf8.RuneError || size == 1 {
+			o += size
+			continue
+		}
+		chars++
+		for k := 1; k < size; k++ {
+			n := (1024 - (o+k)%1024) % 1024
+			pad := strings.Repeat(" ", n)
+			if n >= 3 && (o+k)%2 == 0 {
+				pad = "//" + strings.Repeat("c", n-3) + "\n"
+			}
+			var l2 cedar.PolicyList
+			if err := l2.UnmarshalCedar([]byte(pad + text)); err != nil {
+				padded = append(padded, Obj{"ok": false, "n": n})
+			} else {
+				padded = append(padded, Obj{"ok": true, "policies": policiesToJ(l2), "n": n})
+			}
+		}
+		o += size
+	}
+	if len(padded) > 0 {
+		out["padded"] = padded
+	}
 	return out
 }
 
@@ -157,6 +188,14 @@ func cmpParse(c Obj, obs, exp J) []int {
 	if (eok && n == 1) || !eok {
 		if !parseAgrees(o["single"], e, true) {
 			return []int{1}
+		}
+	}
+	// the same tokens behind leading white space
+	if ps, ok := o["padded"].([]any); ok {
+		for _, p := range ps {
+			if !parseAgrees(p, e, false) {
+				return []int{2}
+			}
 		}
 	}
 	return nil
